@@ -12,8 +12,10 @@ Quantified over: {p['quantifier']['text']}
 
 Rules:
 * Work ONLY in your own scratch git worktree: run `git -C /repo worktree add {wt} HEAD` and work in {wt}. Never edit /repo itself, never look into /verif (it must stay unknown to you), never commit anything to /repo's branches.
-* Build the worktree in place: `cd {wt} && ./configure >/dev/null && make -j6 >/dev/null` (a few minutes). The existing test suite is `make check` (runs ~340 tests; you may run `make -k check -j6` and look at the `# FAIL:` counts; the test `tests/hwloc/linux/gather/test-gather-topology.sh` is flaky under machine load and may be ignored). Your change must keep the suite passing.
+* Build the worktree in place: `cd {wt} && ./autogen.sh >/dev/null 2>&1 && ./configure >/dev/null && make -j6 >/dev/null` (a few minutes; `configure` is not under version control). The existing test suite is `make -k check -j6` (174 test programs/scripts in this configuration; sum the `# PASS:`/`# FAIL:` counts of all "Testsuite summary" blocks; the test `tests/hwloc/linux/gather/test-gather-topology.sh` is flaky under machine load and may be ignored). Your change must keep the suite passing.
+* NEVER use `git stash` (the stash is shared by all worktrees of /repo and other people are working in other worktrees). To compare with/without your change: `git diff > /tmp/{pid}{var}.patch; git checkout -- hwloc include utils; make -j6; ...; git apply /tmp/{pid}{var}.patch; make -j6`.
+* /repo's recent history contains many "fix:" commits (git log --oneline | head -60): do not simply revert one of them; invent a different change.
 * The change must be the kind of mistake a maintainer could plausibly make in a refactoring or "optimisation" (an off-by-one at a boundary, a dropped update on one path, a wrong flag/branch on a rarely used code path, two sites that each look fine alone, state not refreshed after a particular sequence...). It must need something SPECIFIC to manifest: a particular multi-step sequence of API calls, an unusual input, a boundary size, a particular flag combination — NOT something that any ordinary use exposes at once, and not a crash on the common path. Do not add dead code, comments saying it is a bug, or special-casing of magic inputs. Keep it small (a few lines).
-* Write a demonstration: a small C program (linked against the worktree's built library: `gcc demo.c -I{wt}/include {wt}/hwloc/.libs/libhwloc.so -Wl,-rpath,{wt}/hwloc/.libs -o demo`) or a shell script using the built tools, which exits non-zero / prints FAIL with your change and exits 0 / prints PASS without it (verify both: `git stash` / `git stash pop` + `make -j6`).
+* Write a demonstration: a small C program (linked against the worktree's built library: `gcc demo.c -I{wt}/include {wt}/hwloc/.libs/libhwloc.so -Wl,-rpath,{wt}/hwloc/.libs -o demo`) or a shell script using the built tools, which exits non-zero / prints FAIL with your change and exits 0 / prints PASS without it (verify both, see the next rule).
 * Deliver, inside {wt}/SEED/: `patch.diff` (output of `git diff` for the source change only), the demonstration source (`demo.c` or `demo.sh`) with build/run instructions in a comment at the top, and `meta.json` with keys: property, summary (what the change does), needs (what specific sequence/input/config is needed for it to manifest), ran (the commands you ran and what they printed, incl. the test-suite totals with the change).
 * Leave the worktree in place when you finish (I will collect SEED/ and remove it). Final message: a 10-line summary.""")
